@@ -1,5 +1,6 @@
 import PercevalModel.SimProto
 import PercevalModel.Model.C04
+import PercevalModel.Model.C04Trim
 
 open Lean PM PM.Proto PM.Fock PM.Dist PM.SimSpec PM.SimProto PM.C04
 
@@ -36,6 +37,33 @@ def detOfJson (j : Json) : Except String Det := do
 def engTable {m : ℕ} (U : Matrix (Fin m) (Fin m) GQ) (members : List Member) : List (Fock × D) :=
   (members.flatMap (·.groups)).eraseDups.map fun s => (s, probsFock U s)
 
+/-! margin of the threshold comparisons (driver-side diagnostics, not part of the model): the smallest relative
+distance `|x - θ| / θ` between a compared quantity and its threshold.  The implementation compares floating-point
+values; a comparison closer than the rounding error may legitimately fall on the other side. -/
+
+def relGap (x θ : ℚ) : ℚ := if θ ≤ 0 then 1 else min 1 (|x - θ| / θ)
+
+def innerGap (θ : ℚ) : List D → ℚ → ℚ
+  | [], _ => 1
+  | d :: rest, p =>
+    (d.map fun e => if p * e.2 < θ then relGap (p * e.2) θ
+                    else min (relGap (p * e.2) θ) (innerGap θ rest (p * e.2))).foldl min 1
+
+def tensorGap (θ : ℚ) (ds : List D) : ℚ :=
+  if ds.length < 2 || ds.any List.isEmpty then 1
+  else min ((ds.flatMap fun d => d.map fun e => relGap e.2 θ).foldl min 1)
+           (innerGap θ (ds.map fun d => d.filter fun e => θ < e.2) 1)
+
+def trimGap (eng : Fock → D) (P : PM.C04.Prec) (c : Cfg) (members : List Member) : ℚ :=
+  let θ := pThreshold P c members
+  let g1 := ((kept c members).map fun mb => relGap mb.w θ).foldl min 1
+  let g2 := ((keptθ P c members).map fun mb =>
+    tensorGap (θ / (10 * mb.w)) (mb.groups.map (groupDist eng c mb.n))).foldl min 1
+  min g1 g2
+
+def outToJson (o : Out) : Json :=
+  Json.mkObj [("results", distToJson o.results), ("phys", ratToJson o.phys), ("logical", ratToJson o.logical)]
+
 def handle (j : Json) : Json :=
   match (do
     let op ← strOf j "op"
@@ -67,6 +95,37 @@ def handle (j : Json) : Json :=
         ("mask", Json.arr ((heraldMask m c.heralds).map fun (o : Option ℕ) => match o with
                           | none => Json.null | some d => toJson d).toArray),
         ("minFilter", toJson (minFilter c))]
+    | "c04trim" =>
+      let ⟨m, U⟩ ← matOfJson j
+      let members ← (← arrOf j "members").toList.mapM memberOfJson
+      if members.any (fun mb => mb.groups.any (·.length ≠ m)) then throw "bad group size"
+      if members.any (fun mb => mb.groups.isEmpty) then throw "member without group"
+      let c ← cfgOfJson m (← j.getObjVal? "cfg")
+      let P : PM.C04.Prec := ⟨← ratOfJson (← j.getObjVal? "prec"), ← ratOfJson (← j.getObjVal? "minp")⟩
+      if P.prec < 0 || P.minp < 0 then throw "negative precision"
+      let tab := engTable U members
+      let eng : Fock → D := fun s => (tab.lookup s).getD []
+      let fullD := full eng m members
+      let sc := cond c
+      let exact := probsSvd eng c members
+      let trimmed := probsSvdθ eng P c members
+      let X := mix ((kept c members).map fun (mb : PM.C04.Member) => (mb.w, memberDist eng c mb))
+      let Xθ := codeResθ eng P c members
+      return Json.mkObj [
+        ("trimmed", outToJson trimmed), ("model", outToJson exact),
+        ("spec", Json.mkObj [("results", distToJson (conditioned sc fullD)),
+                             ("phys", ratToJson (physPerf sc fullD)),
+                             ("logical", ratToJson (logicalPerf sc fullD)),
+                             ("retained", ratToJson (mass (retained sc fullD)))]),
+        ("theta", ratToJson (pThreshold P c members)),
+        ("trimmedMass", ratToJson (trimmedMass eng P c members)),
+        ("trimmedRetained", ratToJson (trimmedRetained eng P c members)),
+        ("retainedTrimmed", ratToJson (mass (restrict (logicOk sc) Xθ))),
+        ("droppedMembers", toJson ((kept c members).length - (keptθ P c members).length)),
+        ("droppedEntries", toJson (X.length - Xθ.length)),
+        ("prunedEntries", toJson (((keptθ P c members).map fun (mb : PM.C04.Member) =>
+            (memberDist eng c mb).length - (memberDistθ eng c (pThreshold P c members) mb).length).sum)),
+        ("gap", ratToJson (trimGap eng P c members))]
     | "interleave" =>
       let m ← natOf j "m"
       let hs ← (← arrOf j "heralds").toList.mapM fun h => do
